@@ -10,7 +10,8 @@ git -C /repo worktree add --detach -q "$wt" HEAD || { echo "RESULT $prop $diff w
 cleanup() { git -C /repo worktree remove --force "$wt" 2>/dev/null; rm -rf "$wt" "$out"; git -C /repo worktree prune; }
 trap cleanup EXIT
 if ! git -C "$wt" apply "$diff" 2>/dev/null; then echo "RESULT $prop $diff does-not-apply"; exit 2; fi
-log=$(VERIF_REPO="$wt" VERIF_OUT="$out" /verif/check "$prop" --tier "$tier" 2>&1); rc=$?
+here=$(cd "$(dirname "$0")" && pwd)
+log=$(VERIF_REPO="$wt" VERIF_OUT="$out" "$here/check" "$prop" --tier "$tier" 2>&1); rc=$?
 sigs=$(for f in "$out"/replays/${prop}-*.json; do [ -f "$f" ] && jq -r .violation.signature "$f"; done | sort | uniq -c | tr '\n' ';')
 label=$(echo "$diff" | sed 's#.*/seeded/##')
 case $rc in
